@@ -748,12 +748,37 @@ pub fn c16_case() -> impl Strategy<Value = C16Case> {
         ],
     )
         .prop_flat_map(|(mbx, entry)| {
+            // A segmented upload whose segments are generated field by field and then repeated for
+            // ever: initiate response announcing more data than it carries, then the same segment
+            // (any unused count, any declared length around the minimum, last flag clear) again
+            // and again
+            let endless_segments = (0u8..8, 0u16..14, prop::collection::vec(any::<u8>(), 0..10), any::<bool>(), 0u8..6).prop_map(move |(unused, len_field, data, toggle, k)| {
+                // announces one byte more than it carries, so that every destination that can hold
+                // k + 1 bytes enters the segment loop
+                let k = k % 4;
+                let mut init = vec![10u8 + k, 0, 0, 0, 0, 0x13, 0x00, 0x30, 0x41, 0x00, 0x21, 0x01, k + 1, 0, 0, 0];
+
+                init.extend(std::iter::repeat_n(0x5au8, usize::from(k)));
+
+                let mut seg = vec![len_field as u8, 0, 0, 0, 0, 0x13, 0x00, 0x30, (u8::from(toggle) << 4) | (unused << 1)];
+
+                seg.extend_from_slice(&data);
+
+                while seg.len() < 16 {
+                    seg.push(0);
+                }
+
+                (vec![vec![init]], Some(seg))
+            });
+
+            let generic = (prop::collection::vec(prop::collection::vec(any_reply(mbx), 1..=3), 0..6), prop_oneof![12 => Just(None), 1 => any_reply(mbx).prop_map(Some)]);
+            let is_read = matches!(entry, Entry::ReadU8 | Entry::ReadU32 | Entry::ReadU64 | Entry::ReadArr(_) | Entry::ReadStr(_) | Entry::ReadVec(_) | Entry::ReadArray { .. });
+
             (
-                prop::collection::vec(prop::collection::vec(any_reply(mbx), 1..=3), 0..6),
-                prop_oneof![12 => Just(None), 1 => any_reply(mbx).prop_map(Some)],
+                if is_read { prop_oneof![9 => generic, 1 => endless_segments].boxed() } else { generic.boxed() },
                 0u8..8,
             )
-                .prop_map(move |(script, endless, roll)| {
+                .prop_map(move |((script, endless), roll)| {
                     // The SDO information entry points are known not to end under endless replies
                     // (known_findings.json); each such case costs the full frame budget, so they
                     // are generated an eighth as often
